@@ -50,7 +50,7 @@ class RunResult:
         self.steps = 0
         self.extra: Dict[str, Any] = {}
 
-    def violate(self, kind: str, **detail):
+    def violate(self, kind: str, /, **detail):
         self.violations.append({"kind": kind, "detail": detail})
 
     def probe(self, name: str, n: int = 1):
